@@ -189,12 +189,11 @@ Lemma tree_inv_eq d n m i x : tree_inv (Obj d n m i x) = sibs_ok d n && forallb 
 Proof. reflexivity. Qed.
 
 Definition allowed_ok (t : topo) : Prop :=
-  bs_subset (m_acpu t) (root_set t o_ccs) = true /\ bs_subset (m_anode t) (root_set t o_cnds) = true /\
-  bs_subset (root_set t o_cs) (root_set t o_ccs) = true /\ bs_subset (root_set t o_nds) (root_set t o_cnds) = true.
+  bs_subset (m_acpu t) (root_set t o_cs) = true /\ bs_subset (m_anode t) (root_set t o_nds) = true.
 
 (* Inv: sibling cpusets pairwise disjoint and ordered, child sets included in the parent's, parent cpuset =
    union of its normal children's, gp_index unique and below next_gp_index, allowed sets inside the root's
-   complete sets *)
+   cpuset / nodeset *)
 Definition Inv (t : topo) : Prop :=
   tree_inv (m_root t) = true /\
   nodup_N (gps (m_root t)) = true /\
@@ -250,31 +249,16 @@ Qed.
 Lemma subset_refl a : bs_subset a a = true.
 Proof. rewrite bs_subset_spec. auto. Qed.
 
-Lemma after_cpu_subset (c : option bset) (cs ccs acpu b : bset) :
-  bs_subset acpu ccs = true -> bs_subset cs ccs = true ->
-  match c with
-  | Some c => if bs_intersects cs c then Some (bs_inter cs c) else None
-  | None => Some acpu
-  end = Some b -> bs_subset b ccs = true.
-Proof.
-  intros H1 H3 E. destruct c as [c|].
-  - destruct (bs_intersects cs c); [|discriminate]. injection E as <-. apply subset_inter_l, H3.
-  - injection E as <-. exact H1.
-Qed.
+Lemma subset_inter_self a b : bs_subset (bs_inter a b) a = true.
+Proof. apply subset_inter_l, subset_refl. Qed.
 
-(* allowed sets stay inside the root's complete sets, for every flag word and every argument *)
+(* allowed sets stay inside the root's cpuset / nodeset (what hwloc_topology_check asserts), for every flag
+   word and every argument *)
 Theorem allow_preserves_allowed t f c n : allowed_ok t -> allowed_ok (fst (step_allow t f c n)).
 Proof.
-  intros (H1 & H2 & H3 & H4). unfold step_allow.
-  brk; unfold allowed_ok, root_set in *; cbn [fst m_acpu m_anode m_root set_allowed]; repeat split;
-    try assumption; try apply subset_refl;
-    try (apply subset_inter_l; assumption);
-    repeat match goal with
-           | E : Some _ = Some _ |- _ => injection E as <-
-           | E : (if ?b then _ else _) = Some _ |- _ => destruct b; try discriminate
-           end;
-    try assumption; try (apply subset_inter_l; assumption);
-    try (eapply after_cpu_subset; [exact H1|exact H3|eassumption]).
+  intros (H1 & H2). unfold step_allow.
+  brk; unfold allowed_ok, root_set in *; cbn [fst m_acpu m_anode m_root set_allowed]; split;
+    try assumption; try apply subset_refl; try apply subset_inter_self.
 Qed.
 
 (* ------------------------------------------------------------------ *)
@@ -284,23 +268,16 @@ Qed.
 Definition obs (t : topo) :=
   (m_root t, m_flags t, m_filters t, m_acpu t, m_anode t, m_thissystem t, m_tinfos t, m_extra t).
 
-(* the one call with a partial update before its EINVAL: CUSTOM with both sets given *)
-Definition partial_update_call (c : call) : bool :=
-  match c with CAllow f (Some _) (Some _) => f =? HWLOC_ALLOW_FLAG_CUSTOM | _ => false end.
-
-Theorem step_error_is_identity_partial t c e :
-  partial_update_call c = false -> snd (step t c) = RErr e -> obs (fst (step t c)) = obs t.
+Theorem step_error_is_identity t c e :
+  snd (step t c) = RErr e -> obs (fst (step t c)) = obs t.
 Proof.
-  destruct c; cbn [partial_update_call step]; intros Hp Hr.
+  destruct c; cbn [step]; intros Hr.
   - unfold step_misc in *. revert Hr. brk; cbn; intros; try discriminate; reflexivity.
   - unfold step_info_mod in *. revert Hr. brk; cbn; intros; try discriminate; reflexivity.
   - unfold step_info_mod in *. revert Hr. brk; cbn; intros; try discriminate; reflexivity.
   - revert Hr. brk; cbn; intros; try discriminate; reflexivity.
   - unfold step_subtype in *. revert Hr. brk; cbn; intros; try discriminate; reflexivity.
-  - unfold step_allow in *. revert Hr Hp. brk; cbn; intros; try discriminate; try reflexivity.
-    destruct cpuset as [c0|].
-    + congruence.
-    + match goal with E : Some _ = Some _ |- _ => injection E as <- end. reflexivity.
+  - unfold step_allow in *. revert Hr. brk; cbn; intros; try discriminate; reflexivity.
   - unfold step_group in *. revert Hr. brk; cbn; intros; try discriminate; reflexivity.
   - cbn in Hr. discriminate.
 Qed.
@@ -440,12 +417,13 @@ Lemma group_ok_example :
   tree_inv (m_root (fst (step topo1 (CGroup (gsp 12 false 0))))) = true.
 Proof. split; vm_compute; reflexivity. Qed.
 
-(* hwloc__insert_try_merge_group returns the struct that hwloc_replace_linked_object has just zeroed:
-   a dont_merge Group over a mergeable Group with the same cpuset *)
-Lemma group_replace_returns_zeroed :
-  snd (step topo1 (CGroup (gsp 3 true 3))) = RObj (Some 0) true /\
-  existsb (N.eqb 8) (gps (m_root (fst (step topo1 (CGroup (gsp 3 true 3)))))) = false.
-Proof. split; vm_compute; reflexivity. Qed.
+(* a dont_merge Group over a mergeable Group with the same cpuset: the linked object is returned, with the
+   new gp_index, and Inv still holds *)
+Lemma group_dontmerge_over_mergeable :
+  snd (step topo1 (CGroup (gsp 3 true 3))) = RObj (Some 9) false /\
+  existsb (N.eqb 9) (gps (m_root (fst (step topo1 (CGroup (gsp 3 true 3)))))) = true /\
+  tree_inv (m_root (fst (step topo1 (CGroup (gsp 3 true 3))))) = true.
+Proof. repeat split; vm_compute; reflexivity. Qed.
 
 (* a mergeable Group of smaller kind overwrites the existing Group: its gp_index (8) disappears without any restrict *)
 Lemma group_smaller_kind_replaces_identity :
@@ -459,21 +437,19 @@ Lemma group_dontmerge_same_cpuset_breaks_inv :
   tree_inv (m_root (fst (step topo2 (CGroup (gsp 3 true 7))))) = false.
 Proof. vm_compute. reflexivity. Qed.
 
-(* CUSTOM with a usable cpuset and a nodeset outside the topology: EINVAL after allowed_cpuset was overwritten *)
+(* CUSTOM with a usable cpuset and a nodeset outside the topology: EINVAL, nothing modified *)
 Definition topo0d : topo := mkTopo tree0 1 filters0 (bs_of_N 15) (bs_of_N 1) 8 false [] [].
-Lemma allow_einval_partial_update :
+Lemma allow_einval_example :
   snd (step topo0d (CAllow HWLOC_ALLOW_FLAG_CUSTOM (S 3) (S 32))) = RErr EINVAL /\
-  m_acpu (fst (step topo0d (CAllow HWLOC_ALLOW_FLAG_CUSTOM (S 3) (S 32)))) = bs_of_N 3 /\
-  m_acpu topo0d = bs_of_N 15.
+  snd (step topo0d (CAllow HWLOC_ALLOW_FLAG_CUSTOM (S 3) (S 1))) = RInt 0 /\
+  m_acpu (fst (step topo0d (CAllow HWLOC_ALLOW_FLAG_CUSTOM (S 3) (S 1)))) = bs_of_N 3.
 Proof. repeat split; vm_compute; reflexivity. Qed.
 
-(* ALL copies the root COMPLETE sets: with an offline PU (complete_cpuset 0x1f, cpuset 0xf) the allowed
-   cpuset leaves the root cpuset *)
+(* ALL with an offline PU (complete_cpuset 0x1f, cpuset 0xf): allowed = cpuset *)
 Definition tree_off : obj :=
   match tree0 with Obj d n m i x => Obj (set_sets d (S 15) (S 31) (S 1) (S 1)) n m i x end.
-Definition topo_off : topo := mkTopo tree_off 1 filters0 (bs_of_N 15) (bs_of_N 1) 8 false [] [].
-Lemma allow_all_leaves_root_cpuset :
-  bs_subset (m_acpu topo_off) (root_set topo_off o_cs) = true /\
+Definition topo_off : topo := mkTopo tree_off 1 filters0 (bs_of_N 3) (bs_of_N 1) 8 false [] [].
+Lemma allow_all_example :
   snd (step topo_off (CAllow HWLOC_ALLOW_FLAG_ALL None None)) = RInt 0 /\
-  bs_subset (m_acpu (fst (step topo_off (CAllow HWLOC_ALLOW_FLAG_ALL None None)))) (root_set topo_off o_cs) = false.
-Proof. repeat split; vm_compute; reflexivity. Qed.
+  m_acpu (fst (step topo_off (CAllow HWLOC_ALLOW_FLAG_ALL None None))) = bs_of_N 15.
+Proof. split; vm_compute; reflexivity. Qed.
